@@ -1,4 +1,5 @@
 """C07 — object generation yields exactly the objects of the class, each once."""
+import pickle
 import random
 from collections import Counter
 
@@ -8,6 +9,7 @@ import speccheck
 import specrun
 from comb_spec_searcher.exception import SpecificationNotFound, StrategyDoesNotApply
 from comb_spec_searcher.strategies.rule import EquivalencePathRule, EquivalenceRule, ReverseRule
+import upword
 from upword import W, true_objects
 
 LEVEL_NOTE = (
@@ -35,6 +37,10 @@ def spec_worker(args):
         return out
     out["status"] = "spec"
     try:
+        blob = pickle.dumps(spec)
+    except Exception:  # noqa: BLE001
+        blob = None
+    try:
         for rule in list(spec):
             for ch in rule.children:
                 spec.get_rule(ch)
@@ -60,12 +66,67 @@ def spec_worker(args):
                 if got != want:
                     out["problems"].append(("generate_objects_of_size-ne-class", f"n={n} {params}: {got[:6]} vs {want[:6]}"))
                     break
+        # generation interrupted part-way (an exception out of a backward map at its k-th call) and asked again
+        if blob is not None and not out["problems"]:
+            out["problems"] += interrupted_generation(blob, root, min(N, 4))
     except NotImplementedError:
         out["status"] = "maps-not-implemented"  # reverse rules (complement / quotient) do not generate objects
         out["problems"] = []
     except Exception as exc:  # noqa: BLE001
         out["problems"].append(("object-generation-raises", specrun.exc_info(exc)))
     return out
+
+
+class _Cut(Exception):
+    pass
+
+
+def interrupted_generation(blob, root, n):
+    """for k = 1, 2, ...: a fresh copy of the specification, generate_objects_of_size(n) with the k-th call of a backward
+    map raising, then the same question again without the fault: the answer must be the objects of the class"""
+    from comb_spec_searcher.strategies.strategy import DisjointUnionStrategy
+
+    problems = []
+    want = sorted(map(str, root.words(n)))
+    targets = [(DisjointUnionStrategy, "backward_map"), (upword.Peel, "backward_map"), (upword.Rot, "backward_map"), (upword.Swap, "backward_map")]
+    saved = [(cls, name, cls.__dict__[name]) for cls, name in targets if name in cls.__dict__]
+    for k in (1, 2, 3, 4, 6, 9, 14, 22, 35):
+        state = {"calls": 0, "armed": True}
+
+        def wrap(orig):
+            def f(self, *a, **kw):
+                state["calls"] += 1
+                if state["armed"] and state["calls"] == k:
+                    raise _Cut()
+                return orig(self, *a, **kw)
+            return f
+
+        for cls, name, orig in saved:
+            setattr(cls, name, wrap(orig))
+        try:
+            sp = pickle.loads(blob)
+
+            def gen():
+                return sorted(str(w) for params in root.possible_parameters(n) for w in sp.generate_objects_of_size(n, **params))
+
+            try:
+                gen()
+                reached = False
+            except _Cut:
+                reached = True
+            state["armed"] = False
+            if reached:
+                got = gen()
+                if got != want:
+                    problems.append(("objects-after-an-interrupted-generation-ne-class",
+                                     f"n={n}, interrupted at backward-map call {k}: {len(got)} objects instead of {len(want)}"))
+                    break
+        finally:
+            for cls, name, orig in saved:
+                setattr(cls, name, orig)
+        if not reached:
+            break
+    return problems
 
 
 # ------------------------------------------------------------------ (b) maps of the derived forms
